@@ -352,14 +352,9 @@ func (cx *Ctx) checkErrPropagation(r *Report, rule, key string, fn *ssa.Function
 		bad := ""
 		for i := range aps {
 			p := &aps[i]
-			through := false
-			for _, nb := range nonNil {
-				if p.Has(nb) {
-					// the path must also have taken the non-nil edge (nb entered from the test)
-					through = true
-				}
-			}
-			if !through {
+			// the path took the non-nil edge of a test of this very error (a block that several edges enter, or a
+			// variable that merges several errors, is not enough)
+			if !fx.tookFailingEdge(&p.Path, e) {
 				continue
 			}
 			_, isNonNil := fx.errNilness(p, fx.retVal(p, res.Len()-1))
@@ -391,6 +386,11 @@ func (cx *Ctx) checkErrPropagation(r *Report, rule, key string, fn *ssa.Function
 					continue
 				}
 				foundNil, _ := fx.errNilness(p, e)
+				if sawNonNil, sawNil := fx.errOutcomesOnPath(&p.Path, e); sawNonNil && sawNil {
+					continue // the same error found non-nil and nil: not a path
+				} else if sawNil && !sawNonNil {
+					foundNil = true
+				}
 				if !foundNil {
 					// an alias tested nil
 					for _, a := range fx.aliasesOf(e) {
